@@ -520,6 +520,48 @@ pub fn generate(s: &mut Session, thorough: bool) -> bool {
             }
         }
     }
+    // (v-b) occupancy extremes of the anode ring: every wire with data (a run without data
+    // suppression), all but one, and blocks that wrap over the 255/0 seam - quiet and with pulses
+    // (seed C09-4: the ring-merge of contiguous_ranges popped its only block when the ring was full)
+    for run in [u32::MAX, 11084] {
+        let Some(g) = Geometry::new(run) else { continue };
+        let dw = hooks::wire_delay(run).unwrap_or(100);
+        let clip = |x: f64| x.round().clamp(-32768.0, 32767.0) as i16;
+        for kind in 0..6usize {
+            let holes: Vec<usize> = match kind {
+                0 | 1 => vec![],
+                2 => vec![rng.below(256) as usize],
+                3 => (8..248).collect(),                 // one block 248..=255,0..=7 over the seam
+                4 => (0..256).filter(|w| w % 16 >= 12).collect(),
+                _ => vec![0],
+            };
+            let mut wires = Vec::new();
+            for w in 0..256usize {
+                if holes.contains(&w) {
+                    continue;
+                }
+                let pos = TpcWirePosition::try_from(w).unwrap();
+                let bl = hooks::wire_baseline(run, pos).unwrap_or(0) as f64;
+                let gn = hooks::wire_gain(run, pos).unwrap_or(1.0);
+                let n = 300 + 10 * (w % 7);
+                let mut sig = vec![0.0; n];
+                if kind != 0 && (w % 5 == 0 || rng.below(6) == 0) {
+                    let bin = rng.range(5, 120) as usize;
+                    let a = 300.0 + 200.0 * rng.below(10) as f64;
+                    for (i, x) in g.wire_resp.iter().enumerate() {
+                        if dw + bin + i < sig.len() {
+                            sig[dw + bin + i] += a * x;
+                        }
+                    }
+                }
+                let (board, ch) = g.wire_src[w];
+                wires.push(WireSpec { board, ch, wave: sig.iter().map(|x| clip(bl + x / gn)).collect() });
+            }
+            let spec = Spec { run, ts: rng.next() as u32, wires, pads: vec![] };
+            let banks = c10::spec_banks(&mut rng, &spec);
+            add(s, "ring-occupancy", run, &banks, &mut stats);
+        }
+    }
     // (vi) events of the independent forward model (harness/src/sim.rs): 2-4 helical tracks from a
     // common vertex, which the library reconstructs to a vertex
     #[cfg(feature = "sim")]
